@@ -365,6 +365,11 @@ def triage(rep: Report, failed, replay_fn, ledger, known):
         cand = next((q for q in qs if q.verdict == "sat"), qs[0])
         solver_out = [{"atom": q.atom, "verdict": q.verdict, "stage": q.stage, "goal": q.goal_str, "path": q.path, "model": dict(list(q.model.items())[:60])} for q in qs[:6]]
         res = None
+        if all(q.detail == "solve-phase deadline reached" for q in qs):
+            # never examined (wall-clock budget of the solve phase, used up by other obligations that fail): nothing is known about this
+            # obligation, so no failing input is attributed to it either -- the bounded block reports inputs under its own name
+            rep.undischarged.append(f"{name} line {cand.line}: not examined, solve-phase deadline reached")
+            continue
         if replay_fn is not None:
             try:
                 res = replay_fn(name, qs)
